@@ -565,6 +565,7 @@ void
     void     *new_mem, *old_mem;
     int_t    new_len, bytes_to_copy;
     int      tries, lword, extra;
+    int      extra_usub = 0; /* room reserved for USUB when UCOL grows */
     ExpHeader *expanders = Glu->expanders; /* Array of 4 types of memory */
 
     alpha = EXPAND;
@@ -626,15 +627,19 @@ void
 	
 	    tries = 0;
 	    extra = (new_len - *prev_len) * lword;
+	    /* USUB grows to the same number of entries right after UCOL. */
+	    if ( type == UCOL ) extra_usub = (new_len - *prev_len) * sizeof(int_t);
 	    if ( keep_prev ) {
-		if ( StackFull(extra) ) return (NULL);
+		if ( StackFull(extra + extra_usub) ) return (NULL);
 	    } else {
-		while ( StackFull(extra) ) {
+		while ( StackFull(extra + extra_usub) ) {
 		    if ( ++tries > 10 ) return (NULL);
 		    alpha = Reduce(alpha);
 		    new_len = alpha * *prev_len;
 		    if ( lword < sizeof(int_t) ) new_len = EvenLen(new_len);
 		    extra = (new_len - *prev_len) * lword;	    
+		    if ( type == UCOL )
+			extra_usub = (new_len - *prev_len) * sizeof(int_t);
 		}
 		/* The space left does not allow any growth: report the failure
 		   instead of "succeeding" with the same length, which made the
@@ -666,9 +671,9 @@ void
 		}
 		Glu->stack.top1 += extra;
 		Glu->stack.used += extra;
-		if ( type == UCOL ) {
-		    Glu->stack.top1 += extra;   /* Add same amount for USUB */
-		    Glu->stack.used += extra;
+		if ( type == UCOL ) { /* Add the same number of entries for USUB */
+		    Glu->stack.top1 += extra_usub;
+		    Glu->stack.used += extra_usub;
 		}
 		
 	    } /* end expansion */
